@@ -38,19 +38,19 @@ S = 2
 
 
 def bounds(tier):
-    return {"partA": "period 1..3 (>=2 at gamma=1), N=2p+3 iterations, gamma symbolic in (0,1) or 1, clear on/off", "partB": "S3A2E2, bs 2, devices {1,2}",
+    return {"partA": ("period 1..3" if tier == "quick" else "period 1..5") + " (>=2 at gamma=1), N=2p+3 iterations, gamma symbolic in (0,1) or 1, clear on/off", "partB": "S3A2E2, bs 2, devices " + ("{1,2}" if tier == "quick" else "{1,2,3,4}"),
             "partC": "S2A2E1 / S3A2E1 all unichain deterministic structures, period 2, gamma 1"}
 
 
 def jobs(tier, seed):
     out = []
-    for p in (1, 2, 3):
+    for p in ((1, 2, 3) if tier == "quick" else (1, 2, 3, 4, 5)):
         for gm in ("sym", "one"):
             if gm == "one" and p < 2:
                 continue
             for clear in (False, True):
                 out.append(dict(name=f"A-p{p}-g{gm}-clear{int(clear)}", kind="A", period=p, gmode=gm, clear=clear, devices=1, seed=seed, cost=5 * p))
-    for dv in (1, 2):
+    for dv in ((1, 2) if tier == "quick" else (1, 2, 3, 4)):
         out.append(dict(name=f"B-sweep-dev{dv}", kind="B", devices=dv, seed=seed, cost=3))
     out.append(dict(name="C-S2", kind="C", S=2, devices=1, seed=seed, cost=10))
     for ch in range(3):
